@@ -126,7 +126,7 @@ def run(ctx):
     regen.gen_enums()
     vlib.proof_step(ctx)
     import dpcmtie
-    dpcmtie.run(ctx, 800 if q else 20000)
+    dpcmtie.run(ctx, 1600 if q else 40000, "r")
     diff = wrappers.tie(ctx, relevant=["sf_seek", "sf_read", "psf_default_seek", "VALIDATE"])
     script, dist, plan = gen_script(ctx, q)
     ctx.distribution.update(dist)
